@@ -172,8 +172,10 @@ def gen_expr(rng, depth, rels, names, allow_direct, types, conds):
 def gen_condition(rng, name, hostile=False):
     n = rng.choice([1, 1, 2, 3])
     pn = []
-    for x in ["x", "y", "user", "ip", "allowed", "t1", "items", "n"]:
-        if len(pn) < n and rng.random() < 0.6:
+    # names that are prefixes of each other and continue with a digit, '_' or '-' order differently as names and as
+    # rendered "name: type" entries (':' sorts after digits and '-', before '_' and letters)
+    for x in ["x", "x1", "y", "user", "user_ip", "ip", "allowed", "t1", "t", "items", "items2", "n"]:
+        if len(pn) < n and rng.random() < 0.45:
             pn.append(x)
     if not pn:
         pn = ["x"]
@@ -193,6 +195,10 @@ def gen_file(rng, modular=False, max_types=5, max_rels=5, depth=3, exotic=0.25, 
     tnames = names.distinct(rng.randint(1, max_types))
     if n_conds is None:
         n_conds = rng.choice([0, 0, 1, 2])
+    if not modular and rng.random() < 0.06:
+        # a document without any type block (header only, or header and conditions)
+        tnames = []
+        n_conds = rng.choice([0, 1, 2, 2])
     cnames = []
     for c in COND_IDS:
         if len(cnames) < n_conds and rng.random() < 0.5:
@@ -477,7 +483,8 @@ def gen_userset(rng, depth, rels, p_this=0.25, degenerate=0.0):
     op = rng.choice([4, 4, 5, 6])
     if op == 6:
         return [6, gen_userset(rng, depth - 1, rels, p_this, degenerate), gen_userset(rng, depth - 1, rels, p_this, degenerate)]
-    return [op] + [gen_userset(rng, depth - 1, rels, p_this, degenerate) for _ in range(rng.choice([2, 2, 3, 4]))]
+    # a union or intersection with ONE operand is a legal model (JSON/proto only; the DSL cannot write it)
+    return [op] + [gen_userset(rng, depth - 1, rels, p_this, degenerate) for _ in range(rng.choice([1, 2, 2, 2, 3, 4]))]
 
 
 def count_this(u):
@@ -512,8 +519,11 @@ def gen_wire_model(rng, modular=None, degenerate=0.0, p_this=0.25, max_types=4, 
                     refs.append(ref_wire(gen_restriction(rng, tnames, cnames, names)))
             mod = S(rng.choice(modules)) if modular and rng.random() < 0.4 else []
             fil = [S(rng.choice(files))] if modular and rng.random() < 0.5 else []
-            if rng.random() > degenerate * 0.5:
-                metas.append([S(rn), [refs, mod, fil]])
+            if rng.random() <= degenerate * 0.5:
+                continue
+            if count_this(u) == 0 and not refs and rng.random() < 0.15:
+                continue        # a relation without direct assignment needs no metadata entry (hand-written JSON leaves it out)
+            metas.append([S(rn), [refs, mod, fil]])
         if modular:
             tmod = S(rng.choice(modules)) if rng.random() < 0.85 else []
             tfile = [S(rng.choice(files))] if rng.random() < 0.7 else []
